@@ -286,6 +286,19 @@ def run_shard(spec, rec):
         tol = float(rng.choice([0.0, 0.05, 0.1, 0.25, 0.3, 0.5, 0.75, 1.0, 2.0]))
         method = METHODS[int(rng.integers(3))]
         weights = [bool(rng.integers(2)) for _ in range(nds)]
+        # the unit of the global axis is the user's: the same axes in a unit in which neighbouring points are 5e-10 apart
+        # (wavelengths in metres), or far from zero (wavenumbers: 2**21 + ...).  Both maps are exact in binary floating
+        # point, so every comparison with the tolerance has the same outcome as before
+        if i % 5 == 2:
+            f = 2.0 ** -30
+            axes = [[v * f for v in a] for a in axes]
+            tol = tol * f
+            rec.features["axis-unit=2^-30"] += 1
+        elif i % 5 == 4:
+            axes = [[float(2 ** 21 + np.round(v * 4) / 4) for v in a] for a in axes]
+            axes = [sorted(set(a)) for a in axes]
+            tol = float(rng.choice([0.0, 0.25, 0.5, 0.75, 1.0, 2.0]))
+            rec.features["axis-offset=2^21"] += 1
         labels = None
         if i % 4 in (1, 3):
             pool = COLLISION_POOLS[int(rng.integers(len(COLLISION_POOLS)))]
